@@ -421,9 +421,13 @@ func init() {
 	propChecks["C09"] = &PropCheck{
 		ID: "C09", Title: "Encrypted values decrypt back to exactly the original",
 		Jobs: func(e *Engine, tier string) []*Job {
+			bp := map[string]string{"realBase64": "yes"}
+			if tier == "thorough" {
+				bp["b64max"] = "13"
+			}
 			return []*Job{
 				{Name: "redactString-decrypt", Harness: "H_c09", Lines: map[string]*Template{}, Params: map[string]string{}},
-				{Name: "base64-roundtrip", Harness: "H_c09_b64", Lines: map[string]*Template{}, Params: map[string]string{"realBase64": "yes"}},
+				{Name: "base64-roundtrip", Harness: "H_c09_b64", Lines: map[string]*Template{}, Params: bp},
 			}
 		},
 		Functions: []string{"redactString", "Encrypt", "Decrypt", "keysetHandleFromRawKey", "ReadKeyFromFile"},
@@ -431,7 +435,7 @@ func init() {
 		Bounds: map[string]any{
 			"plaintext": "arbitrary string of any length (SMT string), arbitrary 64-byte key",
 			"path":      "redactString (the single choke point of encrypt mode) -> key file content as WriteKeyToFile stores it -> ReadKeyFromFile -> base64 decode -> Decrypt, i.e. the steps of the decrypt command",
-			"base64":    "real stdlib code on symbolic bytes, lengths 0..6",
+			"base64":    "real stdlib code on symbolic bytes, lengths 0..6 (thorough: 0..13, which reaches the decoder's 8- and 4-character fast paths)",
 			"outside":   "'a different key or an altered ciphertext fails': authenticity of AES-SIV is a cryptographic (probabilistic) claim, not decidable here; the cobra wiring of the decrypt command; key file with trailing newline",
 		},
 		Assumptions: []string{"round trip rests on the contract Dec(k,Enc(k,m,ad),ad)=m of the tink primitive with the same keyset and associated data; a change of key material, template, prefix type or associated data on one side only breaks syntactic equality of the keyset / ad terms and is reported"},
